@@ -572,3 +572,182 @@ func init() {
 		}
 	})
 }
+
+const utilsPkg = modPath + "/utils"
+
+func init() {
+	extraSpecs = append(extraSpecs, func(m map[string]*CheckSpec) {
+		conc := append(append([]string{}, commonAssumptions...),
+			"goroutines are interpreted with sequentially consistent interleaving at synchronisation operations (mutex, atomic, channel, select, context cancel, go); cooperative deterministic scheduling unless a harness asks for schedule exploration, which is preemption-bounded (CHESS-style)",
+			"unbuffered channels are approximated: a send deposits the value and waits until it is taken",
+			"net.Conn is a scripted in-memory type; time.Now is a non-decreasing stub; utils.Timer.TakeTimeout is harness-fired in the session-level harnesses (its own loop is verified separately against a symbolic clock)")
+		m["C04"] = &CheckSpec{
+			ID: "C04",
+			Jobs: func(tier string) []Job {
+				var jobs []Job
+				quick := tier == "quick"
+				// reader: scenario 0 (3 symbolic tiny messages, 78..84 bytes total): every first cut position, then pairs
+				for c1 := 1; c1 <= 40; c1++ {
+					jobs = append(jobs, J(rootPkg, "H_C04_reader", 0, 0, c1, 1+c1%5, 2, 8, 0))
+				}
+				step := 3
+				if !quick {
+					step = 1
+				}
+				for c1 := 1; c1 <= 30; c1 += step {
+					for c2 := 1; c2 <= 30; c2 += step {
+						jobs = append(jobs, J(rootPkg, "H_C04_reader", 0, 0, c1, c2, 1+(c1+c2)%4, 8, 0))
+					}
+				}
+				for scn := 0; scn <= 4; scn++ {
+					for _, mode := range []int{1, 2} {
+						for _, buf := range []int{0, 1, 2, 8} {
+							jobs = append(jobs, J(rootPkg, "H_C04_reader", scn, mode, 0, 0, 0, buf, 0))
+						}
+					}
+					for _, c := range [][3]int{{1, 1, 1}, {20, 1, 2}, {26, 26, 26}, {27, 3, 100}, {5000, 17, 9}, {5021, 1, 30}, {25, 1, 1}, {24, 1, 1}, {23, 1, 1}, {22, 2, 1}} {
+						jobs = append(jobs, J(rootPkg, "H_C04_reader", scn, 0, c[0], c[1], c[2], 8, 0))
+					}
+					for _, part := range []int{1, 5, 12, 20, 24} {
+						jobs = append(jobs, J(rootPkg, "H_C04_reader", scn, 1+part%2, 0, 0, 0, 8, part))
+					}
+				}
+				for k := 0; k <= 4; k++ {
+					for failAt := 0; failAt <= 2; failAt++ {
+						jobs = append(jobs, J(rootPkg, "H_C04_writer", k, failAt))
+					}
+				}
+				for scn := 0; scn <= 4; scn++ {
+					for _, mode := range []int{0, 1, 2} {
+						for _, buf := range []int{0, 1, 2} {
+							jobs = append(jobs, J(rootPkg, "H_C04_initiator", scn, mode, 9, 4, 21, buf, (scn+buf)%4))
+						}
+					}
+				}
+				for _, p := range [][4]int{{0, 3, 0, 1}, {3, 0, 1, 0}, {1, 4, 2, 2}, {2, 3, 2, 1}, {4, 1, 1, 1}, {0, 0, 1, 0}} {
+					jobs = append(jobs, J(rootPkg, "H_C04_acceptor", p[0], p[1], p[2], p[3]))
+				}
+				return jobs
+			},
+			Explanation: "Symbolic execution of (a) Conn.runReader over the real bufio.Reader SSA on a scripted net.Conn that hands out the concatenation of 1-3 well-formed messages (symbolic type/values; scenarios with '10=' inside values, a tag ending in the CheckSum tag with a three-character value, a 5000-byte message followed by small ones) cut at every first position, at pairs of positions, one byte per read and all at once, with channel buffer sizes 0/1/2/8 and a trailing partial message; (b) Conn.Write for k messages with an injected write failure; (c) the complete Initiator.Serve plumbing (conn.serve + reader goroutine, DefaultHandler.Run, writer loop, forwarder loop, errgroup) and (d) two concurrent Acceptor.serve calls on one Acceptor, all as interpreted goroutines. Asserted: the handler gets exactly the peer's messages, once, in order, byte-identical, and only those of its own connection; nothing for a partial message; end of stream ends the reader with an error; outbound messages reach their own socket whole, once, in hand-off order with a deadline set; Serve returns and the socket is closed after the peer closes.",
+			Rule:        "case = (scenario, cut placement / mode, buffer size, partial length) x path",
+			Bounds: map[string]string{
+				"quick":    "<=3 messages per stream (78..5100 bytes), all single cut positions 1..40, pairs on a 3-step grid up to 30, buffer sizes 0/1/2/8; Serve/serve plumbing under the deterministic cooperative scheduler (one schedule)",
+				"thorough": "all pairs of cut positions up to 30",
+			},
+			Assumptions:  conc,
+			Outside:      "read timing and arbitrary schedules of the plumbing goroutines (one deterministic schedule is executed); more than two simultaneous connections; FIFO order of Go channels (language guarantee)",
+			Differential: 6,
+		}
+		m["C05"] = &CheckSpec{
+			ID: "C05",
+			Jobs: func(tier string) []Job {
+				var jobs []Job
+				for role := 0; role <= 1; role++ {
+					for nc := 0; nc <= 1; nc++ {
+						for what := 0; what <= 6; what++ {
+							for reset := 0; reset <= 1; reset++ {
+								if reset == 1 && (what > 1 || nc == 1) {
+									continue
+								}
+								jobs = append(jobs, J(sessPkg, "H_C05_step", role, nc, what, reset))
+							}
+						}
+					}
+					combos := []int{0, 1, 2, 3}
+					if tier != "quick" {
+						combos = append(combos, 4)
+					}
+					for _, combo := range combos {
+						jobs = append(jobs, J(sessPkg, "H_C05_sched", role, combo, 0))
+					}
+				}
+				return jobs
+			},
+			Explanation: "(a) Inductive step: the outgoing counter is set to a symbolic n after a real logon exchange (peer identifiers symbolic, ResetSeqNumFlag symbolic); one message is produced by each producer kind (application Send x3 types, reply to an inbound TestRequest, Reject of a damaged message, heartbeat-timer expiry, silence-timer expiry); asserted: exactly one message transmitted, MsgSeqNum = n+1, Sender/TargetCompID = the session's (mirrored on the acceptor), SendingTime in FIX layout and read between entry and exit of the call, counter = n+1, a later session on the same store continues with n+2; the logon exchange itself uses number 1. (b) Schedule exploration: two (thorough: three) concurrent producers - application Send with another Send, with the reply to an inbound TestRequest, with a heartbeat-timer expiry, with a Reject - every interleaving at synchronisation operations with at most 2 preemptions; asserted: the outbound queue holds consecutive ascending numbers.",
+			Rule:        "case = (role, producer kind, counter digit class, reset flag) x path for (a); (role, producer combination) x schedule for (b)",
+			Bounds:      map[string]string{"quick": "n in 1..8 / 10..98; <=2 concurrent producers, one message each, preemption bound 2 (~600-3600 schedules per combination)", "thorough": "plus a three-producer combination with preemption bound 1"},
+			Assumptions:  conc,
+			Outside:      "more than 3 concurrent producers or more than one message each; preemption between arbitrary instructions (needs C20); GOMAXPROCS; stores other than the bundled one",
+			Replay:       "engine",
+		}
+		m["C08"] = &CheckSpec{
+			ID: "C08",
+			Jobs: func(tier string) []Job {
+				var jobs []Job
+				ticks := 3
+				if tier != "quick" {
+					ticks = 5
+				}
+				for k := 1; k <= ticks; k++ {
+					for mode := 0; mode <= 1; mode++ {
+						j := J(utilsPkg, "H_C08_timer", k, mode)
+						j.Solver = "cvc5int"
+						jobs = append(jobs, j)
+					}
+				}
+				for c := 0; c <= 2; c++ {
+					j := J(utilsPkg, "H_C08_newtimer", c)
+					j.Solver = "cvc5int"
+					jobs = append(jobs, j)
+				}
+				for role := 0; role <= 1; role++ {
+					for _, hc := range []int{0, 1, 1, 2, 5, 19, 20, 21, 39, 40, 60, 3600} {
+						jobs = append(jobs, J(sessPkg, "H_C08_params", role, hc))
+					}
+					for kind := 0; kind <= 2; kind++ {
+						jobs = append(jobs, J(sessPkg, "H_C08_refresh", role, 0, kind))
+					}
+					for st := 0; st <= 1; st++ {
+						for canc := 0; canc <= 1; canc++ {
+							jobs = append(jobs, J(sessPkg, "H_C08_heartbeat", role, st, canc))
+						}
+					}
+				}
+				return jobs
+			},
+			Explanation: "Four solver-checked lemmas over the real code. (1) Parameters: after a logon with heartbeat interval N (symbolic 2- and 3-digit, plus concrete boundary values) exactly two timers and two goroutines exist, the heartbeat timer's timeout is N s, polling granularity <= N/10. (2) Refresh: each outbound message (application Send, reply produced on the inbound path) sets the heartbeat timer's lastUpdate to a clock value read during that step. (3) Timer.TakeTimeout run as a goroutine against a symbolic non-decreasing 64-bit clock, harness-driven poll ticks and symbolic decisions to Refresh between ticks: at every tick, returned <=> reading >= latest refresh + timeout, and never sooner than timeout after entry (decided by cvc5 with integer blasting; z3 does not finish these 64-bit signed comparisons). (4) One iteration of the heartbeat goroutine after the timer expires: exactly one Heartbeat without TestReqID, also while waiting for a TestRequest answer; it exits silently when the session is cancelled; it waits for the next period afterwards. Composition into 'gap <= N + N/10 + scheduling slack, no unsolicited Heartbeat before N' is argued in DESIGN.md.",
+			Rule:        "case = lemma instance x path",
+			Bounds:      map[string]string{"quick": "TakeTimeout: <=3 poll ticks with optional refresh before each, timeout in [10us, 2^40 ns], instants < 2^61 ns; N in 10..999 symbolic and {1,2,5,19,20,21,39,40,60,3600}", "thorough": "<=5 poll ticks"},
+			Assumptions:  conc,
+			Outside:      "real scheduling slack; behaviour of time.Ticker itself (stubbed: delivers ticks when the harness says so); a second logon on the same session object starting a second pair of timers",
+			Replay:       "engine",
+		}
+		m["C09"] = &CheckSpec{
+			ID: "C09",
+			Jobs: func(tier string) []Job {
+				var jobs []Job
+				for role := 0; role <= 1; role++ {
+					for _, hc := range []int{0, 1, 1, 19, 20, 21, 39, 40, 41, 100, 3600} {
+						jobs = append(jobs, J(sessPkg, "H_C08_params", role, hc))
+					}
+					for k := 0; k < 8*6; k++ {
+						if k/8 != 0 && k%8 > 5 {
+							continue
+						}
+						jobs = append(jobs, J(sessPkg, "H_C08_refresh", role, 1, k))
+					}
+					jobs = append(jobs, J(sessPkg, "H_C09_probe", role, 0, 0), J(sessPkg, "H_C09_probe", role, 2, 0))
+					for k := 0; k < 8*6; k += 1 {
+						if k/8 != 0 && k%8 > 4 {
+							continue
+						}
+						jobs = append(jobs, J(sessPkg, "H_C09_probe", role, 1, k))
+					}
+				}
+				for k := 1; k <= 3; k++ {
+					j := J(utilsPkg, "H_C08_timer", k, 1)
+					j.Solver = "cvc5int"
+					jobs = append(jobs, j)
+				}
+				return jobs
+			},
+			Explanation: "Lemmas over the real code. (1) The silence timer is armed with N + max(1, N/20) seconds (symbolic and boundary N). (2) Every inbound message of every kind, damaged or not, refreshes the silence timer to the clock value of that step and cancels a pending disconnect (state 'waiting for TestRequest answer' is left). (3) Iterations of the silence goroutine with the harness firing the timer: first expiry -> exactly one TestRequest with TestReqID 1 and no disconnect; second expiry without inbound traffic -> disconnect event once, session context cancelled, handler stopped, goroutine exits, no further TestRequest; any inbound message in the second period -> the next expiry sends TestRequest 2 instead of disconnecting; cancelled session -> silent exit. (4) The TakeTimeout lemma of C08 (a timer cannot expire while the last refresh is younger than its timeout, and expires at the first poll after it) instantiated for a re-used timer.",
+			Rule:        "case = lemma instance x path",
+			Bounds:      map[string]string{"quick": "as C08; inbound kinds: 8 message kinds x 6 damage kinds", "thorough": "same"},
+			Assumptions:  conc,
+			Outside:      "that cancelling the handler context makes Acceptor.serve / Initiator.Serve close the socket is covered for the peer-close case by C04's plumbing harness only; real-time slack",
+			Replay:       "engine",
+		}
+	})
+}
